@@ -70,7 +70,7 @@ ValuesGen == (0..25) \cup {35, 45, 49, 50, 51, 85, 94, 95, 96, 99, 100, 101, 104
                             9949, 9950, 9951, 9994, 9995, 9996, 9999, 10004, 12345, 99949, 99950, 99951, 99995, 123456, 999950, 999951}
 ExpsWide == {0 - 12, 0 - 5, 0 - 3, 0 - 1, 0, 2, 9}
 DigsAll == 1..4
-ExpsAll == {0 - 3, 0 - 1, 0, 2}
+ExpsAll == {0 - 6, 0 - 3, 0 - 1, 0, 2}          \* 10^-6: numbers below 1e-4 are printed in exponent notation
 
 RECURSIVE CanTie(_)
 CanTie(N) == IF N = 0 THEN FALSE ELSE IF N % 10 = 0 THEN CanTie(N \div 10) ELSE N % 10 = 5     \* last non-zero digit is a 5
